@@ -483,13 +483,15 @@ theorem C09_theta1_solution_lifts (M : Static) (F : ResFn) (hE : M.L.nE = 0)
   let e0 := mkEnv M.L (scaleSubst M.L M.nom Xprev) t u M.p
   let dq : Vec := (List.range M.L.nS).map fun k => (x1.getD k 0 - e0.x.getD k 0) / dt
   let v : Vec := x1 ++ a1 ++ dq
-  have hvl : v.length = M.L.nX := by simp [v, dq, hx1, ha1, Layout.nX, hE]
+  have hvl : v.length = M.L.nX := by
+    simp only [v, dq, List.length_append, List.length_map, List.length_range, hx1, ha1, Layout.nX, hE]
+    omega
   have hsc : scaleSubst M.L M.nom (encode M.nom v) = v :=
     scaleSubst_encode M.L M.nom v (by omega) (fun i hi => hν i (by omega))
   have hx : (mkEnv M.L v t u M.p).x = x1 := by
     show slice v 0 M.L.nS = x1
-    simp [slice, v, List.take_append_of_le_length, hx1, List.append_assoc]
-    rw [← hx1]; simp
+    simp only [slice, v, List.drop_zero, List.append_assoc]
+    rw [← hx1, List.take_left]
   have ha : (mkEnv M.L v t u M.p).a = a1 := by
     show slice v M.L.nS M.L.nA = a1
     simp only [slice, v, List.append_assoc]
@@ -503,10 +505,70 @@ theorem C09_theta1_solution_lifts (M : Static) (F : ResFn) (hE : M.L.nE = 0)
     simp [dq]
   refine ⟨encode M.nom v, by simp [encode, hvl], by rw [hsc]; exact hx, by rw [hsc]; exact ha, ?_⟩
   have hX : (encode M.nom v).length = M.L.nX := by simp [encode, hvl]
-  rw [C09_sim_equals_theta1 M F hE hF _ Xprev hX hXp t dt u c0 t0' hdt]
+  apply (C09_sim_equals_theta1 M F hE hF _ Xprev hX hXp t dt u c0 t0' hdt).2
   simp only [hsc, hx, ha, hd]
   refine ⟨?_, hrow⟩
   intro k hk
   simp [dq, List.getD_eq_getElem?_getD, List.getElem?_map, List.getElem?_range hk]
+  rfl
+
+/-! ### non-vacuity: one concrete, mildly nonlinear instance satisfies all hypotheses at once
+
+Model: one state `x` (nominal 10), one algebraic `a` (nominal 2), one input `u`, one parameter
+`p = 1/2`; `der(x) + x·p - u = 0`, `a - 2x - x²/4 = 0`; outputs `x` and the negated alias `-a`;
+import stamps `-1, 0, 1, 2` (t0 inside the series) with a NaN gap at the last stamp. -/
+
+/-- hypotheses of `C09_step_backward_euler` / `C09_returns_iff_root` hold together, and the step
+    is the hand-computed backward-Euler step `x: 1 → 8/3`, `a⁺ = 64/9`, `der(x) = 5/3` -/
+example :
+    NomWF exM ∧ RootSound (checkedRoots exCands) ∧ exS.sv.length = exM.L.len
+    ∧ (update exM exF exG (checkedRoots exCands) exS 1).isReturned = true
+    ∧ (update exM exF exG (checkedRoots exCands) exS 1).obj.sv = [4/15, 32/9, 5/3, 1, 3, 1/2]
+    ∧ getVar exM (update exM exF exG (checkedRoots exCands) exS 1).obj 0 false = 8/3
+    ∧ getVar exM (update exM exF exG (checkedRoots exCands) exS 1).obj 1 true = -64/9 :=
+  ⟨by unfold NomWF; decide +kernel, checkedRoots_sound _, by decide +kernel, by decide +kernel,
+   by decide +kernel, by decide +kernel, by decide +kernel⟩
+
+/-- `C09_failure_raises`: a root finder without an answer makes `update` raise, time advanced -/
+example :
+    (update exM exF exG (checkedRoots [[1, 1, 1]]) exS 1).isReturned = false
+    ∧ (update exM exF exG (checkedRoots [[1, 1, 1]]) exS 1).obj.sv = [1/10, 9/8, 0, 1, 3, 1/2] :=
+  ⟨by decide +kernel, by decide +kernel⟩
+
+/-- `C09_outputs_every_step`, `C09_io_step`, `C09_inputs_fed`: the hypotheses hold for a two-step
+    run started from the `initialize` records; three records per output, times 0, 1, 2, the NaN
+    gap keeps `u = 3` -/
+example :
+    SeriesWF exIO ∧ exIO.series.Pairwise (fun a b => a.idx ≠ b.idx)
+    ∧ exSt.times = [getTime exIO.M exSt.sim]
+    ∧ exSt.out = (record exIO exSt.sim).map (fun v => [v])
+    ∧ (∀ d ∈ [(-1 : Rat), -1], 0 < (if d < 0 then (1 : Rat) else d))
+    ∧ (ioRun exIO exF exG (checkedRoots exCands) 1 exSt [-1, -1]).isReturned = true
+    ∧ (ioRun exIO exF exG (checkedRoots exCands) 1 exSt [-1, -1]).obj.times = [0, 1, 2]
+    ∧ (ioRun exIO exF exG (checkedRoots exCands) 1 exSt [-1, -1]).obj.out
+        = [[1, 8/3, 34/9], [-9/4, -64/9, -901/81]] :=
+  ⟨by unfold SeriesWF; decide +kernel, by decide +kernel, by decide +kernel, by decide +kernel,
+   by decide +kernel, by decide +kernel, by decide +kernel, by decide +kernel⟩
+
+/-- `C09_init_consistent`: a feasible answer of the NLP solver (fixed start `x = 1`) is accepted,
+    the t0 record is taken from it; an infeasible proposal makes `initialize` raise -/
+example :
+    InitSound (checkedInit [1/10, 9/8, 5/2])
+    ∧ (ioInitialize exIO exF (fun _ => []) exG [⟨some 1, some 1⟩] (checkedInit [1/10, 9/8, 5/2])
+        [0, 0, 0, 5, 9, 1/2]).isReturned = true
+    ∧ (ioInitialize exIO exF (fun _ => []) exG [⟨some 1, some 1⟩] (checkedInit [1/10, 9/8, 5/2])
+        [0, 0, 0, 5, 9, 1/2]).obj.out = [[1], [-9/4]]
+    ∧ (ioInitialize exIO exF (fun _ => []) exG [⟨some 1, some 1⟩] (checkedInit [2/10, 9/8, 5/2])
+        [0, 0, 0, 5, 9, 1/2]).isReturned = false :=
+  ⟨checkedInit_sound _, by decide +kernel, by decide +kernel, by decide +kernel⟩
+
+/-- `C09_sim_equals_theta1` / `C09_theta1_solution_lifts`: the fixed-length hypothesis holds for
+    every polynomial residual, the nominals of the instance are non-zero, and the hand-computed
+    step satisfies the θ = 1 row -/
+example :
+    (∀ e e' : Env, (exF e).length = (exF e').length)
+    ∧ (∀ i, i < exM.L.nX → nomAt exM.nom i ≠ 0)
+    ∧ thetaRow exF 1 [1] [9/4] [8/3] [64/9] [] [7] [3] [1/2] 0 1 = [0, 0] :=
+  ⟨fun e e' => by simp [exF, polyRes_length], by decide +kernel, by decide +kernel⟩
 
 end RtcVerif.C09
